@@ -229,6 +229,26 @@ def preimage(x, S, var):
                     if (S & ISet(S.bits, [(h, h)])):
                         out = out | ISet(S.bits, [(h, m - 1)])
                     return preimage(y, out, var)
+                if op == "and" and c[2] != 0 and not (c[2] & (c[2] + 1) == 0) and c[2] not in (h, h - 1):
+                    # general mask M: x = y & M.  For each target value t (t & ~M must be 0) the solutions are
+                    # t | (any assignment of the bits outside M); the free bits below M's lowest set bit form a run
+                    Mk = c[2]
+                    tz = (Mk & -Mk).bit_length() - 1
+                    free_hi = [b for b in range(tz, S.bits) if not (Mk >> b) & 1]
+                    targets = [t for a, b in S.ivs for t in range(a, min(b, a + 4096) + 1)] if S.size() <= 4096 else None
+                    if targets is None or len(free_hi) > 10:
+                        return None
+                    ivs = []
+                    for t in targets:
+                        if t & ~Mk:
+                            continue
+                        for combo in range(1 << len(free_hi)):
+                            base = t
+                            for i, bpos in enumerate(free_hi):
+                                if (combo >> i) & 1:
+                                    base |= 1 << bpos
+                            ivs.append((base, base + (1 << tz) - 1))
+                    return preimage(y, ISet(S.bits, ivs), var)
                 if op == "and" and c[2] & (c[2] + 1) == 0 and c[2] != 0:   # low-bit mask 2^k - 1
                     k = c[2].bit_length()
                     if S.bits - k <= 10:
